@@ -550,6 +550,7 @@ pub fn run_case(case: &mut Case) {
     o.decor = false;
     o.strict = false;
     o.adjacent_args = false;
+    o.adjacent_optional_words = true;
     let spec = {
         let mut p = Pool::new(&mut rng, o);
         gen_def(&mut p)
